@@ -1,8 +1,10 @@
 #!/bin/bash
-# Cross-property detection matrix: every seeded change against every property's quick check (scratch worktrees).
+# Cross-property detection matrix: every seeded change against the quick check of every property of its
+# domain (CLI changes x C01-C12,C17-C20; dag changes x C13-C16), in scratch worktrees.
 # usage: matrix.sh <outdir> [parallel]
 OUT=${1:-work/matrix}; P=${2:-4}
 mkdir -p "$OUT"
 HERE=$(cd "$(dirname "$0")" && pwd)
-ALL=$(python3 -c "print(','.join('C%02d'%i for i in range(1,21)))")
-ls -d "$HERE"/seeded/C*-[AB] | xargs -P "$P" -I{} sh -c "n=\$(basename {}); python3 $HERE/seedtest.py detect-scratch {} $ALL quick > $OUT/\$n.json 2>&1"
+CLI=C01,C02,C03,C04,C05,C06,C07,C08,C09,C10,C11,C12,C17,C18,C19,C20
+DAG=C13,C14,C15,C16
+ls -d "$HERE"/seeded/C*-[AB] "$HERE"/seeded/r2-C*-[AB] | xargs -P "$P" -I{} sh -c "n=\$(basename {}); if grep -q 'dag/dag.go' {}/patch.diff; then L=$DAG; else L=$CLI; fi; python3 $HERE/seedtest.py detect-scratch {} \$L quick > $OUT/\$n.json 2>&1"
